@@ -15,7 +15,19 @@ the pipeline lexer plus suspicious spellings (bare, and framed as ``a{ ... }``) 
 Oracle: the parser yields pass specs / passes or raises one of the deliberate error channels
 (ArgSpecParseError, ParseError, ValueError); any other exception class is a violation.
 
-No sampling anywhere: both parts are plain products over the stated alphabets.
+Part 3 (multi-entry pipelines): pipelines of 2 and 3 entries in which the same pass class occurs
+twice with DIFFERENT values of one field (all ordered pairs over a reduced alphabet per field),
+identical repeats and repeats that set different option names, with and without another pass in
+between; the comma-joined text is parsed with PassPipeline.parse_spec and must give the original
+passes position by position and the same text again.
+
+Part 4 (history oracle, specs are values): from_pass_spec must leave the caller's ArgSpec
+untouched (snapshot before / after), a second instantiation from the same spec must give the
+same pass, and a spec that equalled pass.pipeline_pass_spec() before must still equal it.  Run on
+every round-tripping instance of part 1 (parsed spec, the pass's own spec, the dashed-name spelling),
+on every pipeline of part 3 and on every pipeline the parser builds in part 2.
+
+No sampling anywhere: all parts are plain products over the stated alphabets.
 (No ``from __future__ import annotations`` here on purpose: xdsl inspects ``Field.type`` of the
 synthetic classes, which must be real types.)
 """
@@ -542,6 +554,125 @@ def roundtrip_pipeline(st: Stats, passes):
     return None
 
 
+def spec_snapshot(sp):
+    return (str(sp), sp.name, [(k, eqkey(v)) for k, v in sp.parameters.items()])
+
+
+def history_spec(st: Stats, cls, sp, expect_key=None, own_spec=None):
+    """from_pass_spec(sp) twice on the SAME spec object.  None if the spec behaved as a value,
+    else (kind, detail).  A first instantiation that raises is not this oracle's business."""
+    st.executions += 1
+    st.transitions += 2
+    before = spec_snapshot(sp)
+    eq_before = own_spec is not None and sp == own_spec
+    try:
+        p1 = cls.from_pass_spec(sp)
+    except BaseException as e:  # noqa: BLE001
+        _reraise_if_control(e)
+        st.outcomes["history:first-instantiation-raises"] += 1
+        return None
+    st.evaluations += 1
+    after = spec_snapshot(sp)
+    if after != before:
+        return ("spec-mutated-by-from-spec", {"spec_before": before[0], "spec_after": after[0]})
+    st.evaluations += 1
+    try:
+        p2 = cls.from_pass_spec(sp)
+    except BaseException as e:  # noqa: BLE001
+        _reraise_if_control(e)
+        return ("second-instantiation-raises", f"{type(e).__name__}: {_last_line(e)}")
+    if inst_key(p1) != inst_key(p2):
+        return ("second-instantiation-differs", [str(p1), str(p2)])
+    st.evaluations += 1
+    if expect_key is not None and inst_key(p1) != expect_key:
+        return ("instantiation-differs-from-original", str(p1))
+    if eq_before and not (sp == own_spec):
+        return ("spec-no-longer-equals-pass-spec", after[0])
+    return None
+
+
+def history_one(st: Stats, p):
+    """The three spellings of the spec of a (round-tripping) pass instance."""
+    from xdsl.utils.arg_spec import ArgSpec, parse_pipeline
+
+    cls = type(p)
+    try:
+        parsed = list(parse_pipeline(str(p)))
+        own = p.pipeline_pass_spec()
+        ref = p.pipeline_pass_spec()
+        dashed = ArgSpec(own.name, {k.replace("_", "-"): v for k, v in p.pipeline_pass_spec().parameters.items()})
+    except BaseException as e:  # noqa: BLE001 - reported by the round-trip oracle
+        _reraise_if_control(e)
+        return None
+    variants = [("own-spec", own), ("dashed-names", dashed)]
+    if len(parsed) == 1:
+        variants.insert(0, ("parsed-spec", parsed[0]))
+    for tag, sp in variants:
+        r = history_spec(st, cls, sp, inst_key(p), ref)
+        if r is not None:
+            return (r[0], {"spec_variant": tag, "observed": r[1]}, str(p))
+    return None
+
+
+def check_multi(st: Stats, passes, originals_ok=None):
+    """Part 3 oracle on one pipeline.  None if it holds, else (kind, detail, text)."""
+    from xdsl.utils.arg_spec import parse_pipeline
+    from xdsl.utils.exceptions import ArgSpecParseError, ParseError
+
+    st.executions += 1
+    st.transitions += 2
+    try:
+        text = pipeline_text(passes)
+    except BaseException as e:  # noqa: BLE001
+        _reraise_if_control(e)
+        return (f"print-raises-{type(e).__name__}", _last_line(e), None)
+    try:
+        pp = PassPipeline.parse_spec(available(), text)
+    except (ArgSpecParseError, ParseError) as e:
+        return ("parse-error", _last_line(e), text)
+    except ValueError as e:
+        return ("option-error", _last_line(e), text)
+    except BaseException as e:  # noqa: BLE001
+        _reraise_if_control(e)
+        return (f"parse-raises-{type(e).__name__}", _last_line(e), text)
+    st.evaluations += 1
+    got = tuple(pp.passes)
+    if len(got) != len(passes):
+        return ("length-differs", [str(q) for q in got], text)
+    for k, (a, b) in enumerate(zip(passes, got)):
+        st.evaluations += 1
+        if type(a) is not type(b) or inst_key(a) != inst_key(b):
+            return (f"position-{k}-differs", {"expected": str(a), "got": str(b), "all": [str(q) for q in got]}, text)
+    text2 = pipeline_text(got)
+    if text2 != text:
+        return ("reprint-differs", text2, text)
+    # pipeline-level history: parse -> instantiate every spec -> the parsed specs are unchanged
+    st.executions += 1
+    try:
+        specs = list(parse_pipeline(text))
+        before = [spec_snapshot(sp) for sp in specs]
+        insts = [registry()[sp.name].from_pass_spec(sp) for sp in specs]
+    except BaseException as e:  # noqa: BLE001
+        _reraise_if_control(e)
+        return (f"history:first-instantiation-raises-{type(e).__name__}", _last_line(e), text)
+    after = [spec_snapshot(sp) for sp in specs]
+    st.evaluations += 2
+    if after != before:
+        return ("history:spec-mutated-by-from-spec", {"before": ",".join(b[0] for b in before),
+                                                      "after": ",".join(a[0] for a in after)}, text)
+    try:
+        insts2 = [registry()[sp.name].from_pass_spec(sp) for sp in specs]
+    except BaseException as e:  # noqa: BLE001
+        _reraise_if_control(e)
+        return ("history:second-instantiation-raises", f"{type(e).__name__}: {_last_line(e)}", text)
+    for k, (a, b, c) in enumerate(zip(passes, insts, insts2)):
+        if inst_key(b) != inst_key(c):
+            return ("history:second-instantiation-differs", {"position": k, "got": [str(b), str(c)]}, text)
+        if inst_key(a) != inst_key(b):
+            return ("history:instantiation-differs-from-original", {"position": k, "expected": str(a), "got": str(b)}, text)
+    return None
+
+
 def check_instance(st: Stats, cls, kwargs: dict, partner=None, skip_modes=()):
     """Run every printing path for one instance.  Returns (status, api, kind, detail, text):
     status in {'ctor-reject', 'ok', 'fail'}; only the FIRST failing path is reported (the later
@@ -556,6 +687,9 @@ def check_instance(st: Stats, cls, kwargs: dict, partner=None, skip_modes=()):
         r = roundtrip_one(st, p, False)
         if r is not None:
             return ("fail", "roundtrip", *r)
+        r = history_one(st, p)
+        if r is not None:
+            return ("fail", "history", *r)
     if "include-default" not in skip_modes:
         r = roundtrip_one(st, p, True)
         if r is not None:
@@ -624,7 +758,7 @@ def task_base(arg) -> Stats:
             continue
         if status == "fail":
             st.outcomes[f"base:fail:{api}:{kind}"] += 1
-            st.violate(f"C18|{api}|base|{name}",
+            st.violate(f"C18|history|{kind}|base" if api == "history" else f"C18|{api}|base|{name}",
                        f"pass {name} with default/benign options does not round-trip ({api}: {kind})",
                        _wit(cls, base, [], api, kind, detail, text))
             continue
@@ -649,7 +783,9 @@ def _record(st, cls, kwargs, varied, vclasses, res, tag):
             st.nontrivial += 1
         return
     st.outcomes[f"{tag}:fail:{api}:{kind}"] += 1
-    if len(vclasses) == 1:
+    if api == "history":
+        sig = f"C18|history|{kind}|" + "+".join(t for t, _ in vclasses)
+    elif len(vclasses) == 1:
         t, c = vclasses[0]
         sig = f"C18|{api}|{t}|{c}"
     else:
@@ -726,6 +862,110 @@ def task_pair(arg) -> Stats:
             _record(st, cls, kwargs, [fa, fb], [value_class(va, sa), value_class(vb, sb)], res, "pair")
             if (n + seed) % 499 == 0 and res[0] == "ok":
                 st.sample({"pass": pname, "fields": [fa, fb], "printed": res[4]})
+    return st
+
+
+# ---------------------------------------------------------------- part 3: multi-entry pipelines
+def multi_alphabet(tp, thorough: bool):
+    vals = alphabet(tp, "pair", thorough)
+    if thorough:
+        big = alphabet(tp, "elem", thorough)
+        if len(big) <= 20:
+            vals = _dedup(list(vals) + list(big))
+    return vals
+
+
+def _multi_report(st, cls, form, entries, passes, r):
+    """entries: JSON description of the pipeline; r: failure of check_multi."""
+    kind, detail, text = r
+    # a pipeline that fails because ONE of its passes does not round-trip on its own is the
+    # single-pass defect, reported (or registered as known) under its own signature
+    for q in passes:
+        if roundtrip_one(Stats(), q, False) is not None:
+            st.outcomes["multi:fail-explained-by-single-pass-failure"] += 1
+            return
+    st.outcomes[f"multi:fail:{form}:{kind}"] += 1
+    if kind.startswith("history:"):
+        sig = f"C18|history|{kind[8:]}|pipeline"
+        what = f"{cls.name}: instantiating the parsed specs of a pipeline does not treat them as values ({kind[8:]})"
+    else:
+        sig = f"C18|pipeline|multi-entry|{form}|{kind}"
+        what = (f"{cls.name}: a pipeline with several entries of the same pass ({form}) does not parse back "
+                f"position by position ({kind})")
+    st.violate(sig, what,
+               {"part": "multi", "pass": cls.name, "form": form, "entries": entries, "printed": text,
+                "kind": kind, "observed": detail,
+                "expected": "PassPipeline.parse_spec(text).passes == originals, same text again, parsed specs untouched"})
+
+
+def _multi_build(cls, base, entries, partner):
+    out = []
+    for e in entries:
+        if e == "sep":
+            out.append(partner)
+        else:
+            kw = dict(base)
+            kw.update({k: dec(v) for k, v in e.items()})
+            out.append(cls(**kw))
+    return out
+
+
+def _multi_run(st, cls, base, partner, form, entries, differs: bool, sample: bool):
+    if partner is None and "sep" in entries:
+        return
+    st.transitions += len(entries)
+    try:
+        passes = _multi_build(cls, base, entries, partner)
+    except BaseException as e:  # noqa: BLE001
+        _reraise_if_control(e)
+        st.outcomes[f"multi:ctor-reject:{type(e).__name__}"] += 1
+        return
+    st.states += 1
+    st.max_depth = max(st.max_depth, len(entries))
+    r = check_multi(st, passes)
+    if r is None:
+        st.outcomes[f"multi:ok:{form}"] += 1
+        if differs:
+            st.nontrivial += 1
+        if sample:
+            st.sample({"pipeline": pipeline_text(passes)})
+        return
+    _multi_report(st, cls, form, entries, passes, r)
+
+
+def task_multi(arg) -> Stats:
+    pname, thorough, seed = arg
+    st = Stats()
+    cls = registry()[pname]
+    fields, base = pass_fields(cls)
+    partner = _partner()
+    usable = [(n, tp, shp) for n, tp, shp in fields if shp is not None]
+    n = 0
+    first_off_base = {}
+    for fname, tp, _ in usable:
+        vals = list(multi_alphabet(tp, thorough))
+        if fname in base:
+            vals = _dedup([base[fname]] + vals)
+        off = [v for v in vals if fname not in base or tkey(v) != tkey(base[fname])]
+        first_off_base[fname] = off[:2]
+        for v1 in vals:
+            for v2 in vals:
+                same = tkey(v1) == tkey(v2)
+                a, b = {fname: enc(v1)}, {fname: enc(v2)}
+                forms = [("identical-repeat", [a, b]), ("identical-repeat+sep", [a, "sep", b])] if same else \
+                        [("same-field", [a, b]), ("same-field+sep", [a, "sep", b]), ("same-field-aba", [a, b, a])]
+                for form, entries in forms:
+                    n += 1
+                    _multi_run(st, cls, base, partner, form, entries, not same, (n + seed) % 997 == 0)
+    for (fa, _, _), (fb, _, _) in itertools.combinations(usable, 2):
+        for va in first_off_base[fa]:
+            for vb in first_off_base[fb]:
+                a, b = {fa: enc(va)}, {fb: enc(vb)}
+                for form, entries in (("different-option-names", [a, b]), ("different-option-names", [b, a]),
+                                      ("different-option-names+sep", [a, "sep", b]),
+                                      ("different-option-names-aba", [a, b, a])):
+                    n += 1
+                    _multi_run(st, cls, base, partner, form, entries, True, (n + seed) % 997 == 0)
     return st
 
 
@@ -829,6 +1069,14 @@ def check_text(st: Stats, s: str, first_is_ident: bool) -> None:
                            f"{type(p).name}: a pass obtained by parsing holds an option value of class {t}:{c} and does "
                            f"not round-trip through its printed spec ({kind})",
                            {"part": "parse", "text": s, "printed": text, "kind": kind, "observed": detail})
+        if not blamed:
+            for sp, q in zip(specs, pp.passes):
+                h = history_spec(st, type(q), sp, inst_key(q))
+                if h is not None:
+                    blamed = True
+                    st.violate(f"C18|history|{h[0]}|parsed",
+                               f"{type(q).name}: from_pass_spec does not treat a parsed ArgSpec as a value ({h[0]})",
+                               {"part": "parse", "text": s, "kind": h[0], "observed": h[1]})
         r = None if blamed else roundtrip_pipeline(st, list(pp.passes))
         if r is not None:
             kind, detail, text = r
@@ -902,6 +1150,7 @@ def run(ctx):
         for (fa, _, _), (fb, _, _) in itertools.combinations(fields, 2):
             tasks.append(("pair", (name, fa, fb, thorough, ctx.seed)))
             n_pairs += 1
+        tasks.append(("multi", (name, thorough, ctx.seed)))
     bare_len = ctx.pick(4, 5)
     framed_len = ctx.pick(4, 5)
     for framed, maxlen in ((False, bare_len), (True, framed_len)):
@@ -946,11 +1195,19 @@ def run(ctx):
             "printing_paths": ["str(pass)", "str(pass.pipeline_pass_spec(include_default=True))",
                                "','.join(str(p.pipeline_pass_spec())) for [p], [p,p], [p,dce], [dce,p]"],
         },
+        "part3": {"entries": "2 and 3", "forms": ["same-field [A,B] [A,dce,B] [A,B,A]", "identical-repeat [A,A] [A,dce,A]",
+                                                   "different-option-names [A,B] [B,A] [A,dce,B] [A,B,A]"],
+                  "values": "per field: default + reduced (pair) alphabet, all ORDERED pairs"
+                            + ("; thorough adds the element alphabet when it has <= 20 values" if thorough else ""),
+                  "different_names": "every field pair x first two off-default values of each"},
+        "part4": "history oracle on every round-tripping instance (parsed / own / dashed spec), every part-3 pipeline, every parser-built pipeline",
         "part2": {"lexemes": LEXEMES, "bare_max_tokens": bare_len, "framed": "a{ <w> }", "framed_max_tokens": framed_len},
     }
     ctx.rule = ("part 1: states = distinct pass instances (one field or one field pair moved off the base instance, "
                 "all values of the type alphabet), each printed through every public path and re-parsed; non-trivial = "
                 "constructor accepted it, it round-trips and its printed spec carries at least one option; "
+                "part 3: states = distinct multi-entry pipelines, non-trivial = the repeated class carries two different "
+                "option assignments and the pipeline parses back; "
                 "part 2: states = distinct token strings (the lexeme code is uniquely decodable), bare and framed as a{...}; "
                 "non-trivial = the parser yielded at least one spec, or failed after accepting a leading pass name")
     ctx.assumptions = [
@@ -967,7 +1224,8 @@ def _bucket(ts):
 
 def _task(t):
     kind, arg = t
-    return {"base": task_base, "field": task_field, "pair": task_pair, "tokens": task_tokens}[kind](arg)
+    return {"base": task_base, "field": task_field, "pair": task_pair, "tokens": task_tokens,
+            "multi": task_multi}[kind](arg)
 
 
 def replay(rep) -> bool:
@@ -979,6 +1237,12 @@ def replay(rep) -> bool:
         return sig not in st.violations
     cls = registry()[w["pass"]]
     fields, base = pass_fields(cls)
+    if w.get("part") == "multi":
+        passes = _multi_build(cls, base, w["entries"], _partner())
+        r = check_multi(st, passes)
+        if r is not None:
+            _multi_report(st, cls, w["form"], w["entries"], passes, r)
+        return sig not in st.violations
     kwargs = dict(base)
     kwargs.update({k: dec(v) for k, v in w["values"].items()})
     info = {n: s for n, _, s in fields}
@@ -988,7 +1252,7 @@ def replay(rep) -> bool:
     res = check_instance(st, cls, kwargs, partner, skip)
     if not varied:
         if res[0] == "fail":
-            st.violate(f"C18|{res[1]}|base|{cls.name}", "", {})
+            st.violate(f"C18|history|{res[2]}|base" if res[1] == "history" else f"C18|{res[1]}|base|{cls.name}", "", {})
     else:
         _record(st, cls, kwargs, varied, [value_class(kwargs[f], info[f]) for f in varied], res, "replay")
     return sig not in st.violations
